@@ -98,6 +98,7 @@ func runHistory(c HCase) *pbt.Result {
 			}
 		}
 	}
+	defer guard("config-histories", c)()
 	home := mkHome()
 	defer os.RemoveAll(home)
 	path := filepath.Join(home, confName)
@@ -227,7 +228,7 @@ func runHistory(c HCase) *pbt.Result {
 var historySpec = pbt.Register(pbt.Spec[HCase]{
 	Prop: "C18", Name: "config-histories",
 	Rule: "history = optional initial file, then 1-6 steps of (new version of the file with a modification time dsec seconds + dns nanoseconds after the previous one | no edit) followed by 0-2 reloads; after every reload every non-empty key=value of the current version must be returned by GetValue/GetValueDef (trimmed) and by GetBoolean/GetInt/GetLong/GetFloat/GetIntSet/GetStringArray (strconv on the trimmed value, else the drawn default), two keys never in the file must yield the defaults, and each of 0-3 observers must have been called exactly once per changed version with the new values already visible inside the callback; non-trivial = at least one version written in the same second as the previous version",
-	Quick: 1600, Thorough: 120000,
+	Quick: 6000, Thorough: 600000,
 	Draw: drawHistory, Run: runHistory,
 })
 
